@@ -20,6 +20,8 @@ from . import corpus
 VERIF = os.path.dirname(os.path.dirname(os.path.dirname(os.path.abspath(__file__))))
 TOOLS = os.path.join(VERIF, 'tools')
 NUMIR = os.path.join(TOOLS, 'numir', 'target', 'debug', 'numir')
+if not os.path.exists(NUMIR) and os.path.exists('/verif/tools/numir/target/debug/numir'):
+    NUMIR = '/verif/tools/numir/target/debug/numir'   # `vp run` snapshots hold committed files only
 NUSYN = os.path.join(TOOLS, 'nusyn', 'target', 'debug', 'nusyn')
 CACHE = os.path.join(VERIF, '.cache')
 
